@@ -34,7 +34,7 @@ def impl_main(mode, fin, fout):
     out = []
     for c in cases:
         try:
-            p, warns = decpost.parse(c["text"], include_cc=c.get("include_cc", True))
+            p, warns = decpost.parse(c["text"], include_cc=c.get("include_cc", True), via_file=c.get("via_file", False))
             res = decpost.observe_tables(p)
             # the same tables seen through build_decay_chains(m, stable_particles = all daughters of m): one entry per line
             bad = []
@@ -153,6 +153,15 @@ def gen_cases(rng, tier, models):
         stmts = blocks + others
         rng.shuffle(stmts)
         cases.append({"stmts": stmts, "text": decgen.render(stmts, end=rng.random() < 0.2)})
+    # read through the file constructor: parameter lists wrapped so that a continuation line STARTS with the word End (followed by
+    # more — a line holding nothing but End is the known finding F16b of C02) or with a word that begins with End
+    for k in range(6 if tier == "quick" else 40):
+        m = rng.choice(REAL)
+        words = rng.choice([["End", "2.5", "3.5"], ["End", "x"], ["Endpoint", "1.0"], ["End", "-0.5", "End", "7"]])
+        prm = [["word", "a"]] + [["num", w] if w[0] in "-0123456789" else ["word", w] for w in words]
+        line = {"bf": "1.0", "fs": ["K+", "pi-"], "photos": False, "model": "HELAMP", "params": prm}
+        txt = f"Decay {m}\n  1.0 K+ pi- HELAMP a\n" + " ".join(words) + ";\nEnddecay\n"
+        cases.append({"stmts": [["Decay", m, [line]]], "text": txt, "via_file": True})
     return cases
 
 
